@@ -110,6 +110,24 @@ type FileSpec struct {
 	// PkgOf names the corpus file whose proto package AND Go package this file joins (a package spread over several
 	// .proto files, as most real packages are); empty = a package of its own, named like the file.
 	PkgOf string
+	// Public lists corpus files this file imports with "import public" (their types are usable by every file that imports
+	// THIS file, without importing them directly).
+	Public []string
+	// GoName is the Go package NAME when it differs from the last element of the Go import path (go_package "path;name").
+	GoName string
+}
+
+// AllDeps lists the corpus files this file imports, plainly or publicly.
+func (s FileSpec) AllDeps() []string {
+	return append(append([]string{}, s.Deps...), s.Public...)
+}
+
+// GoPkgName is the Go package name of the generated code.
+func (s FileSpec) GoPkgName() string {
+	if s.GoName != "" {
+		return s.GoName
+	}
+	return s.Pkg()
 }
 
 // Pkg is the name of the (proto and Go) package the file belongs to.
@@ -524,6 +542,34 @@ func Files() []FileSpec {
 			m.field("oc", 7, Opt, kindByName("enum"), fopt{typeName: "@p2.Color", oneof: oi})
 			m.field("om", 8, Opt, kindByName("message"), fopt{typeName: "@p2.ReqChild", oneof: oi})
 		}})
+	// "import public": app -> api -(public)-> types. The app file uses types of a file it does not import itself, and that
+	// file's Go package name differs from the last element of its import path (go_package "path;name").
+	out = append(out, FileSpec{Name: "p3pubt", Syntax: "proto3", GoName: "pubtypes", Cells: "proto3: types re-exported through a public import; Go package name differs from the directory name",
+		build: func(b *fb) {
+			b.enum("Mode", map[string]int32{"MODE_ZERO": 0, "MODE_ONE": 1, "MODE_BIG": 2147483647, "MODE_NEG": -1}, []string{"MODE_ZERO", "MODE_ONE", "MODE_BIG", "MODE_NEG"})
+			st := b.msg("Stamp")
+			st.field("sec", 1, Opt, kindByName("int64"), fopt{})
+			st.field("label", 2, Opt, kindByName("string"), fopt{})
+		}})
+	out = append(out, FileSpec{Name: "p3puba", Syntax: "proto3", Public: []string{"p3pubt"}, Cells: "proto3: a file with `import public`",
+		build: func(b *fb) {
+			a := b.msg("Api")
+			a.field("s", 1, Opt, kindByName("message"), fopt{typeName: "@p3pubt.Stamp"})
+			a.field("n", 2, Opt, kindByName("int32"), fopt{})
+		}})
+	out = append(out, FileSpec{Name: "p3pubc", Syntax: "proto3", Deps: []string{"p3puba"}, Cells: "proto3: fields (singular, repeated, packed enum, map value, oneof) whose types are reachable only through the public import of an imported file",
+		build: func(b *fb) {
+			m := b.msg("App")
+			m.field("at", 1, Opt, kindByName("message"), fopt{typeName: "@p3pubt.Stamp"})
+			m.field("mode", 2, Opt, kindByName("enum"), fopt{typeName: "@p3pubt.Mode"})
+			m.field("stamps", 3, Rep, kindByName("message"), fopt{typeName: "@p3pubt.Stamp"})
+			m.field("modes", 4, Rep, kindByName("enum"), fopt{typeName: "@p3pubt.Mode"})
+			m.mapField("by_name", 5, kindByName("string"), kindByName("message"), "@p3pubt.Stamp")
+			oi := m.oneofDecl("pick")
+			m.field("os", 6, Opt, kindByName("message"), fopt{typeName: "@p3pubt.Stamp", oneof: oi})
+			m.field("om", 7, Opt, kindByName("enum"), fopt{typeName: "@p3pubt.Mode", oneof: oi})
+			m.field("api", 8, Opt, kindByName("message"), fopt{typeName: "@p3puba.Api"})
+		}})
 	// one Go package spread over two .proto files: the second file's fields, map values, oneof members (and, in proto2,
 	// required fields and an extension) have types that are declared in the FIRST file of the same package
 	out = append(out, FileSpec{Name: "p3pkg", Syntax: "proto3", Cells: "proto3: first file of a two-file package (types used by the sibling file)",
@@ -735,7 +781,7 @@ func Build(spec FileSpec, rt Runtime) *descriptorpb.FileDescriptorProto {
 	fd := &descriptorpb.FileDescriptorProto{
 		Name:    proto.String(ProtoPath(spec, rt)),
 		Package: proto.String(pkg),
-		Options: &descriptorpb.FileOptions{GoPackage: proto.String(GoImportPath(spec, rt) + ";" + spec.Pkg())},
+		Options: &descriptorpb.FileOptions{GoPackage: proto.String(GoImportPath(spec, rt) + ";" + spec.GoPkgName())},
 	}
 	if spec.Syntax == "proto3" {
 		fd.Syntax = proto.String("proto3")
@@ -747,6 +793,14 @@ func Build(spec FileSpec, rt Runtime) *descriptorpb.FileDescriptorProto {
 		if !ok {
 			panic("unknown corpus dependency " + d)
 		}
+		fd.Dependency = append(fd.Dependency, ProtoPath(ds, rt))
+	}
+	for _, d := range spec.Public {
+		ds, ok := Spec(d)
+		if !ok {
+			panic("unknown corpus dependency " + d)
+		}
+		fd.PublicDependency = append(fd.PublicDependency, int32(len(fd.Dependency)))
 		fd.Dependency = append(fd.Dependency, ProtoPath(ds, rt))
 	}
 	fd.Dependency = append(fd.Dependency, spec.Ext...)
@@ -773,7 +827,7 @@ func BuildWithDeps(spec FileSpec, rt Runtime) []*descriptorpb.FileDescriptorProt
 		}
 		add(x)
 	}
-	for _, d := range spec.Deps {
+	for _, d := range spec.AllDeps() {
 		ds, _ := Spec(d)
 		add(BuildWithDeps(ds, rt)...)
 	}
